@@ -61,6 +61,14 @@ def mutants(data, rng, n, others=()):
                 b = bytearray(data)
                 b[i:i + w] = bytes(w)
                 add(b)
+    # line endings of text protocols: bare LF, space before the line end, bare CR, doubled
+    if b'\n' in data or b'\r' in data:
+        for a, b_ in ((b'\r\n', b'\n'), (b'\r\n', b' \n'), (b'\r\n', b' \r\n'), (b'\r\n', b'\r'), (b'\r\n', b'\r\n\r\n'), (b'\r\n', b'\t\r\n'),
+                      (b'\n', b' \n'), (b'\n', b'\n\n')):
+            if a in data:
+                add(data.replace(a, b_))
+                i = data.rfind(a)
+                add(data[:i] + b_ + data[i + len(a):])
     # letter case, one letter at a time (text protocols: where does case matter?)
     for i in spots:
         if 0x41 <= data[i] <= 0x5a or 0x61 <= data[i] <= 0x7a:
